@@ -30,6 +30,10 @@ class HarnessError(Exception):
     """Something is wrong with the harness or its environment: exit 2."""
 
 
+class NoSeeds(HarnessError):
+    """A module for which no valid number is known (new module without harvestable examples): skipped and reported."""
+
+
 # --------------------------------------------------------------------------
 # tree under test
 
@@ -505,6 +509,10 @@ def _wrap_shard(fa):
     fn, a = fa
     try:
         return fn(a)
+    except NoSeeds as e:
+        r = Result()
+        r.notes['shards_skipped_no_valid_seed'] = [str(e)]
+        return r
     except HarnessError as e:
         r = Result()
         r.errors.append('HarnessError in shard %r: %s' % (a if not isinstance(a, dict) else a.get('shard'), e))
